@@ -7,3 +7,6 @@ import RSVerif.Properties.C15
 #print axioms RS.ifft_fft_inverse'
 #print axioms RS.fft_evaluates
 #print axioms RS.evalPoly_trunc_indep'
+#print axioms RS.evalPoly_is_convolution
+#print axioms RS.evalPoly_is_locator_log
+#print axioms RS.tables_spec
